@@ -316,3 +316,140 @@ func famPure(g *genctx, v int) *scen {
 	}
 	return s
 }
+
+// O-probe: one operator (or numeric built-in) applied to two arguments refined
+// to small seeded ranges, evaluated on the corner values of both ranges (all
+// pairs when the ranges are short). The interpreter compares every value with
+// the bounds the checker derived for the expression node, so a range
+// computation that is too narrow for some operand ranges is observed even when
+// nothing else goes wrong.
+var probeOps = []string{"+", "-", "*", "/", "%", "<<", ">>", "&", "|", "^", "~mod+", "~mod-", "~mod*", "~mod<<", "~sat+", "~sat-", "min", "max", "low_bits", "high_bits", "as-narrow", "unary-"}
+
+func init() {
+	allFamilies = append(allFamilies, family{"O-probe", len(probeOps), famProbe})
+}
+
+func famProbe(g *genctx, v int) *scen {
+	op := probeOps[v%len(probeOps)]
+	t := g.ityp()
+	r := g.r
+	pickRange := func(max uint64) (lo, hi uint64) {
+		switch r.Intn(5) {
+		case 0:
+			lo = 0
+		case 1:
+			lo = max - max/4 - uint64(r.Intn(5))
+		default:
+			lo = uint64(r.Int63n(int64(max/2 + 1)))
+		}
+		span := uint64(r.Intn(14)) // mostly short: all pairs are then evaluated
+		if r.Intn(4) == 0 {
+			span = uint64(r.Int63n(int64(max/2 + 1)))
+		}
+		hi = lo + span
+		if hi > max || hi < lo {
+			hi = max
+		}
+		return
+	}
+	max := t.max()
+	if t.bits == 64 {
+		max = 1<<63 - 1 // keep Int63n happy; the top half of u64 is covered by the R-arith family
+	}
+	xlo, xhi := pickRange(max)
+	ylo, yhi := pickRange(max)
+	yt := t
+	switch op {
+	case "<<", ">>", "~mod<<", "low_bits", "high_bits":
+		yt = intType{"base.u32", 32}
+		ylo, yhi = uint64(r.Intn(t.bits)), 0
+		yhi = ylo + uint64(r.Intn(t.bits-int(ylo)))
+		if op == "<<" { // keep the product inside the type sometimes
+			xhi = xlo + uint64(r.Intn(16))
+		}
+	case "*":
+		xlo, xhi = uint64(r.Intn(30)), 0
+		xhi = xlo + uint64(r.Intn(14))
+		ylo, yhi = uint64(r.Intn(8)), 0
+		yhi = ylo + uint64(r.Intn(5))
+	case "+":
+		if xhi > max/2 {
+			xlo, xhi = xlo/2, xhi/2
+		}
+		if yhi > max/2 {
+			ylo, yhi = ylo/2, yhi/2
+		}
+	case "-":
+		if ylo > xlo { // x - y must not underflow: make y's range sit below x's
+			xlo, xhi, ylo, yhi = ylo, yhi, xlo, xhi
+		}
+		if yhi > xlo {
+			yhi = xlo
+			if ylo > yhi {
+				ylo = yhi
+			}
+		}
+	case "/", "%":
+		// a small divisor range and a dividend range at least as long as the
+		// largest divisor: every residue, incl. divisor-1, occurs
+		ylo = 1 + uint64(r.Intn(9))
+		yhi = ylo + uint64(r.Intn(7))
+		xhi = xlo + yhi + uint64(r.Intn(4))
+		if xhi > max || xhi < xlo {
+			xlo, xhi = 0, yhi+3
+		}
+	}
+	expr, rt := fmt.Sprintf("args.x %s args.y", op), t.name
+	switch op {
+	case "min", "max", "low_bits", "high_bits":
+		name := op
+		arg := "no_more_than: args.y"
+		if op == "max" {
+			arg = "no_less_than: args.y"
+		}
+		if op == "low_bits" || op == "high_bits" {
+			arg = "n: args.y"
+		}
+		expr = fmt.Sprintf("args.x.%s(%s)", name, arg)
+	case "as-narrow":
+		if t.bits == 8 {
+			return nil
+		}
+		rt = "base.u8"
+		if xhi > 255 {
+			xlo, xhi = uint64(r.Intn(200)), 0
+			xhi = xlo + uint64(r.Intn(int(256-xlo)))
+		}
+		expr = "((args.x ~mod+ 0) & 0xFF) as base.u8"
+		if r.Intn(2) == 0 {
+			expr = "args.x as base.u8"
+		}
+	case "unary-":
+		return nil // unsigned types only: unary minus is not accepted
+	}
+	m := g.n("probe")
+	s := &scen{features: []string{"operator-range", op, t.name}}
+	s.methods = []string{fmt.Sprintf("pub func obj.%s(x: %s[%d ..= %d], y: %s[%d ..= %d]) %s {\n    return %s\n}", m, t.name, xlo, xhi, yt.name, ylo, yhi, rt, expr)}
+	corners := func(lo, hi uint64) []uint64 {
+		if hi-lo <= 20 {
+			var out []uint64
+			for x := lo; ; x++ {
+				out = append(out, x)
+				if x == hi {
+					break
+				}
+			}
+			return out
+		}
+		out := []uint64{lo, lo + 1, lo + (hi-lo)/2, hi - 1, hi}
+		for i := 0; i < 9; i++ {
+			out = append(out, lo+uint64(r.Int63n(int64((hi-lo)&(1<<62-1))+1)))
+		}
+		return out
+	}
+	xs, ys := corners(xlo, xhi), corners(ylo, yhi)
+	s.drive = func(r *rand.Rand) []Call {
+		return callsOver(r, m, [][]uint64{xs, ys}, 400)
+	}
+	return s
+}
